@@ -2,6 +2,7 @@ package rules
 
 import (
 	"go/ast"
+	"go/token"
 	"go/types"
 	"sort"
 	"strings"
@@ -13,7 +14,7 @@ import (
 
 func init() {
 	Register("C05", "Decides structural necessary conditions of 'type references resolve exactly; UsedUserTypes() lists exactly the names used': (agree) every reference position the resolvers (checker, compiler, example builder, OpenAPI) read is also read by the collector behind UsedUserTypes(); (walk) the collector descends into every node kind that has children; (dedupe) a name is appended only when it is new; (miss) every failed lookup in a type table raises ErrUserTypeNotFound with the name (the one deviant site is the recursion checker, reported under C06). Does NOT decide the iff over all reference graphs nor that unused valid types never change a result.",
-		c05agree, c05walk, c05dedupe, c05miss, c05rawkey)
+		c05agree, c05walk, c05descend, c05dedupe, c05miss, c05rawkey, func(c *core.Ctx) { c07walkAs(c, "C05.allofwalk") })
 }
 
 // reference accessors: methods through which a type name stored in the model is read.
@@ -359,4 +360,108 @@ func keyDefinedFrom(cs core.CallSite, e ast.Expr, want string) bool {
 	}
 	def := findDef(cs.Pkg, cs.Pkg.TypesInfo.ObjectOf(id))
 	return def != nil && core.ExprStr(def) == want
+}
+
+// c05descend: the collector's loops visit every child.
+func c05descend(c *core.Ctx) {
+	const R = "C05.descend"
+	c.Rule(R, "in every method of userTypesCollector, a loop over children / keys that contains the recursive collect() call visits every element: the loop body has no continue/break/return/goto, and the only conditions the recursive call may sit under are the success flag of the child lookup (`ok`) or a nil test - never a property of the key (shortcut or not), which would leave the types referenced below some keys out of UsedUserTypes()")
+	c.Floor(R, 2)
+	n := 0
+	for _, d := range c.P.FuncDecls() {
+		name := core.DeclName(d.Pkg, d.Decl)
+		if !strings.HasPrefix(name, "(*notations/jschema.userTypesCollector).") || d.Decl.Body == nil {
+			continue
+		}
+		ast.Inspect(d.Decl.Body, func(nd ast.Node) bool {
+			var body *ast.BlockStmt
+			switch x := nd.(type) {
+			case *ast.RangeStmt:
+				body = x.Body
+			case *ast.ForStmt:
+				body = x.Body
+			default:
+				return true
+			}
+			// does the body hold a recursive collector call?
+			var rec *ast.CallExpr
+			var stack []ast.Node
+			var recStack []ast.Node
+			ast.Inspect(body, func(m ast.Node) bool {
+				if m == nil {
+					stack = stack[:len(stack)-1]
+					return true
+				}
+				stack = append(stack, m)
+				if call, ok := m.(*ast.CallExpr); ok && rec == nil {
+					if strings.HasPrefix(core.FullName(core.Callee(d.Pkg, call)), "(*notations/jschema.userTypesCollector).collect") {
+						rec = call
+						recStack = append([]ast.Node(nil), stack...)
+					}
+				}
+				return true
+			})
+			if rec == nil {
+				return true
+			}
+			n++
+			key := core.F("%s:loop#%d", name, n)
+			pos := c.P.Pos(nd.Pos())
+			bad := ""
+			ast.Inspect(body, func(m ast.Node) bool {
+				switch y := m.(type) {
+				case *ast.FuncLit:
+					return false
+				case *ast.BranchStmt:
+					bad = y.Tok.String() + " at " + c.P.Pos(y.Pos())
+				case *ast.ReturnStmt:
+					bad = "return at " + c.P.Pos(y.Pos())
+				}
+				return true
+			})
+			if bad == "" {
+				for _, anc := range recStack {
+					ifs, ok := anc.(*ast.IfStmt)
+					if !ok {
+						continue
+					}
+					cond := ast.Unparen(ifs.Cond)
+					okCond := false
+					if id, isID := cond.(*ast.Ident); isID {
+						// second result of a tuple assignment (comma-ok)
+						if def := commaOKDef(d.Pkg, d.Decl, id); def {
+							okCond = true
+						}
+					}
+					if be, isBin := cond.(*ast.BinaryExpr); isBin && be.Op == token.NEQ && core.ExprStr(be.Y) == "nil" {
+						okCond = true
+					}
+					if !okCond {
+						bad = "the recursive call is conditional on `" + core.ExprStr(ifs.Cond) + "`"
+					}
+				}
+			}
+			c.Check(bad == "", R, key, pos, "loop in "+name+" descends into every element", "some elements are skipped ("+bad+"): type names used below them are missing from UsedUserTypes()")
+			return true
+		})
+	}
+}
+
+// commaOKDef: id is defined as the second left-hand side of `a, id := f(...)` in fn.
+func commaOKDef(pk *packagesPackage, fn *ast.FuncDecl, id *ast.Ident) bool {
+	obj := pk.TypesInfo.ObjectOf(id)
+	found := false
+	ast.Inspect(fn.Body, func(n ast.Node) bool {
+		as, ok := n.(*ast.AssignStmt)
+		if !ok || len(as.Lhs) != 2 || len(as.Rhs) != 1 {
+			return true
+		}
+		if l, ok := as.Lhs[1].(*ast.Ident); ok && pk.TypesInfo.ObjectOf(l) == obj {
+			if _, isCall := ast.Unparen(as.Rhs[0]).(*ast.CallExpr); isCall {
+				found = true
+			}
+		}
+		return true
+	})
+	return found
 }
